@@ -35,10 +35,11 @@ def function_names():
 
 
 class Occ(object):
-  __slots__ = ('start', 'end', 'table', 'col', 'tags')
+  __slots__ = ('start', 'end', 'table', 'col', 'tags', 'form')
 
-  def __init__(self, start, end, table, col, tags=()):
+  def __init__(self, start, end, table, col, tags=(), form='other'):
     self.start, self.end, self.table, self.col, self.tags = start, end, table, col, frozenset(tags)
+    self.form = form      # the reference form the occurrence is written in (one of FORMS)
 
   def key(self):
     return (self.start, self.table, self.col)
@@ -48,12 +49,17 @@ class Occ(object):
                                    ',' + '+'.join(sorted(self.tags)) if self.tags else '')
 
 
+FORMS = ['$col', 'rec.col', 'chain through a reference ($ref.col, a.b.col)', 'lookup result .col', 'T.all .col',
+         'comprehension variable .col', 'assigned variable .col', 'PREVIOUS/NEXT/RANK result .col', '.find.* result .col',
+         'table name', 'lookup keyword', 'lookup order_by string', 'PREVIOUS/NEXT/RANK order_by/group_by string', 'other']
+
+
 class Ty(object):
   """A record or record set of `table`; tags name the gaps crossed to get here."""
-  __slots__ = ('table', 'tags')
+  __slots__ = ('table', 'tags', 'origin')
 
-  def __init__(self, table, tags=()):
-    self.table, self.tags = table, frozenset(tags)
+  def __init__(self, table, tags=(), origin=None):
+    self.table, self.tags, self.origin = table, frozenset(tags), origin
 
 
 def prepare(text):
@@ -195,17 +201,38 @@ class Locator(object):
   def _end(self, node):
     return self.pos.at(node.end_lineno, node.end_col_offset)
 
-  def _strings(self, table, node, tags):
+  def _attr_form(self, v, env):
+    if isinstance(v, ast.Name):
+      if v.id in env:
+        return 'comprehension variable .col' if getattr(env[v.id], 'origin', None) == 'comp' else 'assigned variable .col'
+      if v.id == 'rec':
+        return 'rec.col'
+      return 'chain through a reference ($ref.col, a.b.col)'
+    if isinstance(v, ast.Attribute):
+      if v.attr == 'all' and self.is_table_name(v.value, env):
+        return 'T.all .col'
+      return 'chain through a reference ($ref.col, a.b.col)'
+    if isinstance(v, ast.Call):
+      f = v.func
+      if isinstance(f, ast.Name) and f.id in PREVNEXT:
+        return 'PREVIOUS/NEXT/RANK result .col'
+      if isinstance(f, ast.Attribute) and f.attr in LOOKUPS:
+        return 'lookup result .col'
+      if isinstance(f, ast.Attribute) and f.attr in FIND_METHODS:
+        return '.find.* result .col'
+    return 'other'
+
+  def _strings(self, table, node, tags, form='lookup order_by string'):
     """order_by / group_by values: a string constant (optional leading '-') or a tuple of them."""
     if isinstance(node, ast.Constant) and isinstance(node.value, str):
       s, e = self._start(node), self._end(node)
       name = node.value[1:] if node.value.startswith('-') else node.value
       a = s + 2 if node.value.startswith('-') else s + 1
       if self.src[a:e - 1] == name and name:
-        self.out.append(Occ(a, e - 1, table, name, tags))
+        self.out.append(Occ(a, e - 1, table, name, tags, form))
     elif isinstance(node, ast.Tuple):
       for el in node.elts:
-        self._strings(table, el, tags)
+        self._strings(table, el, tags, form)
 
   def visit(self, node, self_table, env):
     if isinstance(node, (ast.ListComp, ast.SetComp, ast.GeneratorExp, ast.DictComp)):
@@ -215,7 +242,7 @@ class Locator(object):
         vt = self.comp_var_type(g.iter, self_table, inner)
         for n in ast.walk(g.target):
           if isinstance(n, ast.Name):
-            inner[n.id] = vt if n is g.target else None
+            inner[n.id] = (Ty(vt.table, vt.tags, 'comp') if vt is not None else None) if n is g.target else None
         for c in g.ifs:
           self.visit(c, self_table, inner)
       for part in ([node.key, node.value] if isinstance(node, ast.DictComp) else [node.elt]):
@@ -230,17 +257,17 @@ class Locator(object):
     if isinstance(node, ast.Name):
       if node.id.startswith(DOLLAR) and node.id not in env:
         s = self._start(node)
-        self.out.append(Occ(s + 1, s + len(node.id), self_table, node.id[1:]))
+        self.out.append(Occ(s + 1, s + len(node.id), self_table, node.id[1:], (), '$col'))
       elif self.is_table_name(node, env):
         s = self._start(node)
-        self.out.append(Occ(s, s + len(node.id), node.id, None))
+        self.out.append(Occ(s, s + len(node.id), node.id, None, (), 'table name'))
       return
     if isinstance(node, ast.Attribute):
       base = self.infer(node.value, self_table, env)
       if base is not None:
         e = self._end(node)
         if self.src[e - len(node.attr):e] == node.attr:
-          self.out.append(Occ(e - len(node.attr), e, base.table, node.attr, base.tags))
+          self.out.append(Occ(e - len(node.attr), e, base.table, node.attr, base.tags, self._attr_form(node.value, env)))
     if isinstance(node, ast.Call):
       f = node.func
       if isinstance(f, ast.Attribute) and f.attr in LOOKUPS and self.is_table_name(f.value, env):
@@ -252,13 +279,13 @@ class Locator(object):
           else:
             s = self._start(kw)
             if self.src[s:s + len(kw.arg)] == kw.arg:
-              self.out.append(Occ(s, s + len(kw.arg), f.value.id, kw.arg))
+              self.out.append(Occ(s, s + len(kw.arg), f.value.id, kw.arg, (), 'lookup keyword'))
       elif isinstance(f, ast.Name) and f.id in PREVNEXT and f.id not in env and node.args:
         t = self.infer(node.args[0], self_table, env)
         if t is not None:
           for kw in node.keywords:
             if kw.arg in ('order_by', 'group_by'):
-              self._strings(t.table, kw.value, t.tags)
+              self._strings(t.table, kw.value, t.tags, 'PREVIOUS/NEXT/RANK order_by/group_by string')
     for ch in ast.iter_child_nodes(node):
       self.visit(ch, self_table, env)
       if isinstance(ch, ast.stmt):
